@@ -10,6 +10,7 @@ import (
 	"io"
 	"net"
 	"net/http"
+	"runtime"
 	"time"
 
 	"github.com/cbeuw/Cloak/internal/common"
@@ -230,23 +231,33 @@ func dispatchConnection(conn net.Conn, sta *State) {
 	}
 
 	var user *ActiveUser
-	if sta.IsBypass(ci.UID) {
-		user, err = sta.Panel.GetBypassUser(ci.UID)
-	} else {
-		user, err = sta.Panel.GetUser(ci.UID)
-	}
-	if err != nil {
-		log.WithFields(log.Fields{
-			"UID":        b64(ci.UID),
-			"remoteAddr": conn.RemoteAddr(),
-			"error":      err,
-		}).Warn("+1 unauthorised UID")
-		goWeb()
-		return
-	}
-	verifhook.Point("disp.userResolved")
+	var sesh *mux.Session
+	var existing bool
+	for {
+		if sta.IsBypass(ci.UID) {
+			user, err = sta.Panel.GetBypassUser(ci.UID)
+		} else {
+			user, err = sta.Panel.GetUser(ci.UID)
+		}
+		if err != nil {
+			log.WithFields(log.Fields{
+				"UID":        b64(ci.UID),
+				"remoteAddr": conn.RemoteAddr(),
+				"error":      err,
+			}).Warn("+1 unauthorised UID")
+			goWeb()
+			return
+		}
+		verifhook.Point("disp.userResolved")
 
-	sesh, existing, err := user.GetSession(ci.SessionId, seshConfig)
+		sesh, existing, err = user.GetSession(ci.SessionId, seshConfig)
+		if err != errUserTerminated {
+			break
+		}
+		// the user lost its last session (or was terminated) after we looked it up, so this record
+		// is being removed from the panel: resolve the UID again
+		runtime.Gosched()
+	}
 	if err != nil {
 		user.CloseSession(ci.SessionId, "")
 		log.Error(err)
